@@ -123,6 +123,8 @@ def main():
     budget = int(os.environ.get("VERIF_JOB_BUDGET_S", "300" if tier == "quick" else "3000"))
     for j in jobs:
         j.setdefault("budget_s", budget)
+        # per-stage solver budget: the thorough tier waits three times longer before a query is given up as unknown
+        j.setdefault("solver_timeout_ms", int(os.environ.get("VERIF_SOLVER_TIMEOUT_MS", 20000 if a.tier == "quick" else 60000)))
         j["kf_active"] = kf_active
         j.setdefault("validate_every", 1)
     nproc = int(os.environ.get("VERIF_JOBS", str(os.cpu_count() or 4)))
